@@ -4,6 +4,7 @@ import re
 from lib import machine as mc
 from lib.mir import AnchorMissing
 from . import nf_common, nfq
+from .guardlib import gval, comparisons, lt_true, ge_true
 
 MANIFEST = {
     "text": "Pairing and who-may-call rules on the reference-counted buffer: every additional view of a heap buffer (ptr::read in clone, Tendril::shared in unsafe_subtendril) is preceded by make_buf_shared and incref; Drop destroys the buffer on exactly two edges (unshared; shared and decrement()==1 followed by the acquire fence) and nothing else calls destroy; the atomic counter is updated by single read-modify-write operations; an inline tag overwrites self.ptr only when the tendril is inline; into_send passes make_owned before re-labelling; ownership-duplicating primitives occur only in the reviewed functions; the only unsafe Send impl is SendTendril's. Plus reviewed normal forms of tendril.rs and buf32.rs.",
@@ -41,7 +42,7 @@ def r12_1(ctx):
     key, pcs = nfq.cells(ctx, AREA, "tendril::Tendril<F,A>[Clone]::clone")
     n = 0
     for pc in nfq.feasible(pcs):
-        heap = pc["guards"].get("(self.ptr.get().get() > %s)" % _tag(ctx))
+        heap = gval(pc["guards"], "(self.ptr.get().get() > %s)" % _tag(ctx))
         names = nfq.names(pc)
         if heap:
             n += 1
@@ -74,7 +75,7 @@ def r12_2(ctx):
         names = nfq.names(pc)
         g = pc["guards"]
         destroys = sum(1 for a in names if a.endswith(".destroy"))
-        inline = g.get("(self.ptr.get().get() <= %s)" % _tag(ctx))
+        inline = gval(g, "(self.ptr.get().get() <= %s)" % _tag(ctx))
         shared = [v for k, v in g.items() if k.startswith("self.assume_buf().1")]
         last = [v for k, v in g.items() if "refcount.decrement() == 1" in k]
         n += 1
@@ -198,7 +199,7 @@ def r12_5(ctx):
             for a, args in pc["actions"]:
                 if a == "set self.ptr" and args and ("inline_tag(" in str(args[0]) or "EMPTY_TAG" in str(args[0]) or str(args[0]) in ("new(%s)" % _const(ctx, "EMPTY_TAG"), "new_unchecked(%s)" % _const(ctx, "EMPTY_TAG"))):
                     n += 1
-                    ok = any(v2 and ("self.ptr.get().get() <= %s" % _tag(ctx)) in g for g, v2 in pc["guards"].items())
+                    ok = gval(pc["guards"], "(self.ptr.get().get() <= %s)" % _tag(ctx)) is True
                     ctx.ob("R12.5", "inline-tag-only-over-inline/%s" % fname, ok,
                            "self.ptr is overwritten with an inline tag only when it held an inline tag" if ok else
                            "self.ptr is overwritten with an inline tag on a path that has not established that the tendril is inline: an owned or shared heap buffer (and its reference count) is leaked")
